@@ -44,10 +44,10 @@ Fixpoint t81_kraft (bits : list Z) (i : Z) : Z :=      (* sum BITS(i) * 2^(16-i)
   | [] => 0
   | b :: bs => b * 2 ^ (16 - i) + t81_kraft bs (i + 1)
   end.
-(* a usable table: 16 counts, as many values as codes, values distinct bytes, and the codes
-   fit a binary tree of depth 16 (Kraft sum <= 1) *)
+(* a usable table: 16 counts (bytes), as many values as codes, values distinct bytes, and the
+   codes fit a binary tree of depth 16 (Kraft sum <= 1) *)
 Definition t81_table_ok (bits vals : list Z) : bool :=
-  (length bits =? 16)%nat && forallb (fun b => 0 <=? b) bits
+  (length bits =? 16)%nat && forallb (fun b => (0 <=? b) && (b <? 256)) bits
   && (fold_right Z.add 0 bits =? Z.of_nat (length vals))
   && forallb (fun v => (0 <=? v) && (v <? 256)) vals && t81_distinct vals
   && (t81_kraft bits 1 <=? 65536).
